@@ -263,12 +263,27 @@ namespace vw
         const Impl* impl = nullptr;
         std::vector<double> in, out;
         std::vector<int> calls;
+        double bias = 0.0;  // handed to every node data object through node_data_init
         int dir = 0;  // 0: any (gather inputs of receivers), 1: breadth_upstream (recurrence on outputs)
     };
+
+    // create / init / free accounting (the library calls these from the caller thread only)
+    struct KernelAccounting
+    {
+        long created = 0, freed = 0, inits = 0, live = 0, max_live = 0;
+        bool double_free = false;
+    };
+    inline KernelAccounting& kernel_accounting()
+    {
+        static KernelAccounting a;
+        return a;
+    }
 
     struct KNode
     {
         std::size_t idx = 0;
+        double bias = 0;   // set by node_data_init (when the kernel has one)
+        bool alive = true;
         double in = 0, result = 0;
         std::size_t nrec = 0;
         double rv[24];
@@ -306,7 +321,7 @@ namespace vw
         static int func(void* node)
         {
             KNode& k = *static_cast<KNode*>(node);
-            double s = k.in;
+            double s = k.in + k.bias;
             for (std::size_t j = 0; j < k.nrec; ++j)
                 if (!k.is_self[j])
                     s += 0.5 * k.rw[j] * k.rv[j] + 0.25;
@@ -323,10 +338,24 @@ namespace vw
         }
         static void* create()
         {
+            KernelAccounting& a = kernel_accounting();
+            ++a.created;
+            ++a.live;
+            if (a.live > a.max_live)
+                a.max_live = a.live;
             return new KNode();
+        }
+        static void init(void* node, void* data)
+        {
+            Ctx& c = *static_cast<Ctx*>(data);
+            static_cast<KNode*>(node)->bias = c.bias;
+            ++kernel_accounting().inits;
         }
         static void destroy(void* p)
         {
+            KernelAccounting& a = kernel_accounting();
+            ++a.freed;
+            --a.live;
             delete static_cast<KNode*>(p);
         }
     };
@@ -353,7 +382,11 @@ namespace vw
             kernel.node_data_getter = &KernelFns<Impl>::getter;
             kernel.node_data_setter = &KernelFns<Impl>::setter;
             kernel.node_data_create = &KernelFns<Impl>::create;
-            kernel.node_data_init = nullptr;
+            ctx.bias = (salt % 3 == 0) ? 0.0 : 0.375;
+            if (salt % 3 == 0)
+                kernel.node_data_init = nullptr;
+            else
+                kernel.node_data_init = &KernelFns<Impl>::init;
             kernel.node_data_free = &KernelFns<Impl>::destroy;
             kernel.n_threads = n_threads;
             kernel.min_block_size = min_block;
